@@ -190,8 +190,23 @@ def _r1_value_walk(ctx) -> None:
     out, asked = run([a, o], {id(a): new1, id(o): new2}, value_types=(_V,))
     if not (isinstance(out, tuple) and out[0] == [new1, o] and out[1] is True and o not in asked):
         problems.append(f"value of another type than value_types: result {out!r}, apply_value asked about {asked!r}")
+    # expansions (the alternatives a modifier produced for one value) are walked member by member; what happens inside one
+    # does not undo what was decided for the values before it
+    d, e_ = _V(4), _V(5)
+    exp = SigmaExpansion([d, e_])
+    out, asked = run([a, exp], {id(a): new1})
+    if not (isinstance(out, tuple) and len(out[0]) == 2 and out[0][0] is new1 and out[0][1] is exp and out[1] is True):
+        problems.append(f"a replaced value followed by an expansion none of whose members is touched: result {out!r} instead of ([v10, the same expansion], True)")
+    exp = SigmaExpansion([d, e_])
+    out, asked = run([exp, a], {id(e_): new2})
+    if not (isinstance(out, tuple) and len(out[0]) == 2 and isinstance(out[0][0], SigmaExpansion) and out[0][0].values == [d, new2] and out[0][1] is a and out[1] is True):
+        problems.append(f"a member of an expansion replaced: result {out!r} instead of ([Exp[v4, v20], v1], True)")
+    exp = SigmaExpansion([d, e_])
+    out, asked = run([exp], {})
+    if not (isinstance(out, tuple) and len(out[0]) == 1 and out[0][0] is exp and out[1] is False):
+        problems.append(f"an expansion none of whose members is touched: result {out!r} instead of the same expansion, not modified")
     if not problems:
-        r.ok("C12.R1", f.qual, "apply_value() → None keeps the value and does not count as modification; one value / a list / an iterable Sigma value replace it (interpreted)", f.loc)
+        r.ok("C12.R1", f.qual, "apply_value() → None keeps the value and does not count as modification; one value / a list / an iterable Sigma value replace it; expansions are walked member by member and do not reset what was decided before (interpreted)", f.loc)
     else:
         r.violation("C12.R1", f.qual, f"res is None → results.append(value); modified only otherwise: {problems[0]}", "a value transformation that declines (None) must pass the value through unchanged and must not mark the item as modified", f.loc)
 
